@@ -250,6 +250,15 @@ def run_comments(ctx, FST, rnd, src, label):
         put = ('  # ' + c + rnd.choice(['', ' ', '  '])) if full else c
         case = {'part': 'C', 'src': root.src, 'stmt': type(n).__name__, 'field': fld, 'full': full, 'comment': put, 'label': label}
         before_s = ast.dump(root.a)
+        ancestors = []
+        p_ = f
+        while p_ is not None:   # read everything an enclosing node reports about its own text BEFORE the write (these answers are cached by the library)
+            try:
+                p_.loc, p_.bloc, p_.own_src()
+            except Exception:
+                pass
+            ancestors.append(p_)
+            p_ = p_.parent
         try:
             old = f.put_line_comment(put, fld, full)
             got = f.get_line_comment(fld, full)
@@ -271,6 +280,20 @@ def run_comments(ctx, FST, rnd, src, label):
         if ok is False:
             ctx.violation(f'line-comment-put-desync:{detail}', f'put_line_comment({put!r}, {fld!r}, full={full}) on {type(n).__name__}: out of sync ({detail}); src={short(root.src, 200)!r}', case)
             return
+        # what the statement and every enclosing block report as their own source afterwards == what a fresh parse of the new text reports
+        try:
+            fresh = FST(root.src, 'exec')
+            for anc in ancestors:
+                if anc.a is None or anc is root:
+                    continue
+                twin = fresh.child_from_path(root.child_path(anc))
+                if (anc.own_src(), tuple(anc.bloc)) != (twin.own_src(), tuple(twin.bloc)):
+                    ctx.violation('line-comment-put-leaves-stale-enclosing-source', f'after put_line_comment({put!r}, {fld!r}, full={full}) the enclosing {type(anc.a).__name__} reports own_src/bloc {short(anc.own_src(), 80)!r} {tuple(anc.bloc)}; '
+                                  f'a fresh parse of the same text reports {short(twin.own_src(), 80)!r} {tuple(twin.bloc)}', case)
+                    return
+            ctx.count('comment_enclosing_source_readbacks', len(ancestors))
+        except Exception as e:
+            ctx.count('comment_enclosing_readback_not_possible:' + type(e).__name__)
         # the comment text really is in the source as a COMMENT token
         from ..base import comment_multiset
         cm = comment_multiset(root.src)
